@@ -76,6 +76,17 @@ func ShrinkGrow(cur realm, n, n2, size2 int) {
 	other.Grow(cross(cur), n2, size2)
 }
 
+// BothParams: both realms change objects and their own params in one message.
+func BothParams(cur realm, n, size int, key, val string, n2 int, key2, val2 string) {
+	GrowParam(cur, n, size, key, val)
+	other.ShrinkParam(cross(cur), n2, key2, val2)
+}
+
+func BothParams2(cur realm, n int, key, val string, n2, size2 int, key2, val2 string) {
+	ShrinkParam(cur, n, key, val)
+	other.GrowParam(cross(cur), n2, size2, key2, val2)
+}
+
 // Lend allocates an object HERE and has the other realm keep it: stored under this realm's id,
 // referenced from the other realm's state.
 func Lend(cur realm, k, size int) { other.Keep(cross(cur), k, &blob.Blob{Data: pad(size)}) }
@@ -135,6 +146,28 @@ func Drop(cur realm, k int)               { kept[k%len(kept)] = nil }
 
 func SetParam(cur realm, key, val string) { params.SetString(key, val) }
 func DelParam(cur realm, key string)      { params.SetBytes(key, nil) }
+
+// Objects AND the realm's own chain/params entries change in ONE call (one message): the keeper
+// must charge / refund the SUM of the two byte deltas.
+func GrowParam(cur realm, n, size int, key, val string) {
+	Grow(cur, n, size)
+	params.SetString(key, val)
+}
+
+func ShrinkParam(cur realm, n int, key, val string) {
+	Shrink(cur, n)
+	params.SetString(key, val)
+}
+
+func GrowDelParam(cur realm, n, size int, key string) {
+	Grow(cur, n, size)
+	params.SetBytes(key, nil)
+}
+
+func ShrinkDelParam(cur realm, n int, key string) {
+	Shrink(cur, n)
+	params.SetBytes(key, nil)
+}
 ` + fwd
 }
 
@@ -260,7 +293,9 @@ func realmRecord(db dbm.DB, path string) (storage, deposit int64, ok bool) {
 type snapshot struct {
 	Storage    map[string]int64 `json:"storage"`
 	Deposit    map[string]int64 `json:"deposit"`
-	Disk       map[string]int64 `json:"disk"`
+	Disk       map[string]int64 `json:"disk"`  // odisk + pdisk
+	ODisk      map[string]int64 `json:"odisk"` // bytes of the objects stored under the realm's id
+	PDisk      map[string]int64 `json:"pdisk"` // bytes of the realm's chain/params entries (key + value, as the keeper counts)
 	DBal       map[string]int64 `json:"dbal"`
 	Bal        map[string]int64 `json:"bal"`
 	Price      int64            `json:"price"`
@@ -274,14 +309,15 @@ type world struct {
 }
 
 func (w *world) snap() snapshot {
-	s := snapshot{Storage: map[string]int64{}, Deposit: map[string]int64{}, Disk: map[string]int64{}, DBal: map[string]int64{}, Bal: map[string]int64{}}
+	s := snapshot{Storage: map[string]int64{}, Deposit: map[string]int64{}, Disk: map[string]int64{}, ODisk: map[string]int64{}, PDisk: map[string]int64{}, DBal: map[string]int64{}, Bal: map[string]int64{}}
 	db := w.e.DB
 	for _, r := range realmNames {
 		p := realmPath[r]
 		st, dp, _ := realmRecord(db, p)
 		ob, _ := objectBytes(db, p)
 		s.Storage[r], s.Deposit[r] = st, dp
-		s.Disk[r] = ob + paramBytes(db, p)
+		s.ODisk[r], s.PDisk[r] = ob, paramBytes(db, p)
+		s.Disk[r] = s.ODisk[r] + s.PDisk[r]
 		s.DBal[r] = w.e.Balance(appenv.DepositAddr(p))
 	}
 	for n, a := range w.accts {
@@ -357,6 +393,53 @@ func diffOf(a, b snapshot) map[string]int64 {
 	return d
 }
 
+// setDiffs logs the measured deltas: objects, chain/params entries, and their sum.
+func setDiffs(line map[string]any, a, b snapshot) map[string]int64 {
+	od, pd := map[string]int64{}, map[string]int64{}
+	for _, r := range realmNames {
+		od[r] = b.ODisk[r] - a.ODisk[r]
+		pd[r] = b.PDisk[r] - a.PDisk[r]
+	}
+	d := diffOf(a, b)
+	line["diffs"], line["odiffs"], line["pdiffs"] = d, od, pd
+	return d
+}
+
+// length of the realm's chain/params string entry (-1: absent); the value is stored as amino JSON
+func (w *world) paramLen(realm, key string) int {
+	bz := rawParam(w.e.DB, "vm:"+realmPath[realm]+":"+key)
+	if bz == nil {
+		return -1
+	}
+	var v string
+	if json.Unmarshal(bz, &v) != nil {
+		return -1
+	}
+	return len(v)
+}
+
+// a value for the entry: new key / longer / shorter / same length (other content) / any
+func (w *world) paramVal(rng *rand.Rand, realm, key string, mode, salt int) string {
+	cur := w.paramLen(realm, key)
+	n := rng.Intn(40)
+	switch mode {
+	case 1:
+		n = cur + 1 + rng.Intn(20)
+	case 2:
+		if cur > 0 {
+			n = rng.Intn(cur)
+		}
+	case 3:
+		if cur >= 0 {
+			n = cur
+		}
+	}
+	if n < 0 {
+		n = 0
+	}
+	return strings.Repeat(string(rune('a'+salt%26)), n)
+}
+
 func itoa(n int) string { return strconv.Itoa(n) }
 
 func main() {
@@ -410,11 +493,49 @@ func main() {
 		emit(map[string]any{"act": "Init", "st": cur})
 		deployed := false
 		keys := []string{"k1", "k2", "k3"}
+		// every history starts with the directed combinations (objects and params of one realm in one
+		// message: ++ new key, grow, ++ longer, +- shorter, -+ longer, -- shorter, +0 same length, + delete,
+		// grow, - delete, two realms in one message; a price change in between, a two-realm growth at the end)
+		prologue := []int{100, 10, 100, 105, 111, 88, 115, 109, 118, 10, 120, 122, 124, 55}
 		for t := 0; t < ntx; t++ {
 			var m msgSpec
 			m.kind, m.caller = "call", []string{"u", "u", "v", "poor"}[rng.Intn(4)]
 			n, size := 1+rng.Intn(4), 8+rng.Intn(200)
-			switch k := rng.Intn(100); {
+			ab := []string{"a", "b"}[rng.Intn(2)]
+			key := keys[rng.Intn(3)]
+			k := rng.Intn(125)
+			if t < len(prologue) {
+				k = prologue[t]
+				m.caller = "u"
+			}
+			switch {
+			// ---- one realm changes its objects AND its own chain/params entry in one message
+			case k >= 100 && k < 105: // + objects, new key or longer value
+				mode := 1
+				if w.paramLen(ab, key) < 0 {
+					mode = 0
+				}
+				m.realm, m.fn, m.args = ab, "GrowParam", []string{itoa(n), itoa(size), key, w.paramVal(rng, ab, key, mode, t)}
+			case k >= 105 && k < 109: // + objects, shorter value
+				m.realm, m.fn, m.args = ab, "GrowParam", []string{itoa(n), itoa(size), key, w.paramVal(rng, ab, key, 2, t)}
+			case k >= 109 && k < 111: // + objects, same length
+				m.realm, m.fn, m.args = ab, "GrowParam", []string{itoa(n), itoa(size), key, w.paramVal(rng, ab, key, 3, t)}
+			case k >= 111 && k < 115: // - objects, longer value
+				m.realm, m.fn, m.args = ab, "ShrinkParam", []string{itoa(n), key, w.paramVal(rng, ab, key, 1, t)}
+			case k >= 115 && k < 118: // - objects, shorter value
+				m.realm, m.fn, m.args = ab, "ShrinkParam", []string{itoa(n), key, w.paramVal(rng, ab, key, 2, t)}
+			case k >= 118 && k < 120: // + objects, entry deleted
+				m.realm, m.fn, m.args = ab, "GrowDelParam", []string{itoa(n), itoa(size), key}
+			case k >= 120 && k < 122: // - objects, entry deleted
+				m.realm, m.fn, m.args = ab, "ShrinkDelParam", []string{itoa(n), key}
+			case k >= 122 && k < 124: // two realms, each with both deltas, in one message
+				key2 := keys[rng.Intn(3)]
+				m.realm, m.fn = "a", "BothParams"
+				m.args = []string{itoa(n), itoa(size), key, w.paramVal(rng, "a", key, rng.Intn(4), t), itoa(1 + rng.Intn(3)), key2, w.paramVal(rng, "b", key2, rng.Intn(4), t+1)}
+			case k >= 124:
+				key2 := keys[rng.Intn(3)]
+				m.realm, m.fn = "a", "BothParams2"
+				m.args = []string{itoa(n), key, w.paramVal(rng, "a", key, rng.Intn(4), t), itoa(1 + rng.Intn(3)), itoa(8 + rng.Intn(200)), key2, w.paramVal(rng, "b", key2, rng.Intn(4), t+1)}
 			case k < 22:
 				m.realm, m.fn, m.args = []string{"a", "b"}[rng.Intn(2)], "Grow", []string{itoa(n), itoa(size)}
 			case k < 38:
@@ -457,7 +578,7 @@ func main() {
 			if m.realm == "c" && !deployed {
 				m.realm = "a"
 			}
-			if rng.Intn(4) == 0 && m.caller != "poor" {
+			if rng.Intn(4) == 0 && m.caller != "poor" && t >= len(prologue) {
 				m.limit = []int64{1, 40, 300, 2000, 20000}[rng.Intn(5)]
 			}
 			if m.caller == "poor" && cur.Bal["poor"] < fee {
@@ -469,7 +590,7 @@ func main() {
 			line := map[string]any{"act": "Msg", "caller": m.caller, "limit": m.limit, "fee": fee, "ok": ok,
 				"setprice": m.price, "setrestr": m.restr, "what": m.kind + ":" + m.realm + "." + m.fn, "st": after}
 			if ok {
-				line["diffs"] = diffOf(before, after)
+				setDiffs(line, before, after)
 				sum["ok"]++
 				if m.kind == "deploy" {
 					deployed = true
@@ -493,21 +614,24 @@ func main() {
 				// not a deposit failure (e.g. the realm function itself panicked): no byte deltas exist;
 				// both lines are logged as failures with zero deltas, which the spec accepts only as such
 				sum["failed_twice"]++
-				line["diffs"] = diffOf(before, after)
+				setDiffs(line, before, after)
 				line["nodiffs"] = true
 				emit(line)
-				emit(map[string]any{"act": "Msg", "caller": twc, "limit": 0, "fee": fee, "ok": false, "setprice": tw.price, "setrestr": tw.restr,
-					"what": "twin:" + m.realm + "." + m.fn, "diffs": diffOf(after, afterT), "nodiffs": true, "st": afterT, "log": trim(logT, 200)})
+				tl := map[string]any{"act": "Msg", "caller": twc, "limit": 0, "fee": fee, "ok": false, "setprice": tw.price, "setrestr": tw.restr,
+					"what": "twin:" + m.realm + "." + m.fn, "nodiffs": true, "st": afterT, "log": trim(logT, 200)}
+				setDiffs(tl, after, afterT)
+				emit(tl)
 				cur = afterT
 				continue
 			}
 			sum["twins"]++
-			dT := diffOf(after, afterT)
-			line["diffs"] = dT
+			setDiffs(line, after, afterT)
 			line["log"] = trim(firstLine(log), 200)
 			emit(line)
-			emit(map[string]any{"act": "Msg", "caller": twc, "limit": 0, "fee": fee, "ok": true, "setprice": tw.price, "setrestr": tw.restr,
-				"what": "twin:" + m.realm + "." + m.fn, "diffs": dT, "st": afterT})
+			tl := map[string]any{"act": "Msg", "caller": twc, "limit": 0, "fee": fee, "ok": true, "setprice": tw.price, "setrestr": tw.restr,
+				"what": "twin:" + m.realm + "." + m.fn, "st": afterT}
+			setDiffs(tl, after, afterT)
+			emit(tl)
 			if m.kind == "deploy" {
 				deployed = true
 			}
